@@ -1041,6 +1041,7 @@ def gen_session(r, k):
 # ------------------------------------------------------------------------------------------------
 
 _harvest_cache = {}
+_nonfinite_base = set()
 
 
 def harvested(plain, W):
@@ -1054,7 +1055,7 @@ def harvested(plain, W):
         name = os.path.basename(os.path.dirname(c))
         d = os.path.join(W, "h", name)
         prep_inputs(d)
-        jobs.append((name, plain, big_scenario(open(c).read(), "log.txt", 1), d, "plain", 60))
+        jobs.append((name, plain, big_scenario(open(c).read(), "log.txt", 5), d, "plain", 60))
     res = L.run_many(jobs)
     for c in cfgs:
         name = os.path.basename(os.path.dirname(c))
@@ -1067,6 +1068,8 @@ def harvested(plain, W):
             log = open(os.path.join(W, "h", name, "log.txt")).read().split("Reading new configuration")[-1]
         except OSError:
             continue
+        if re.search(r"^(ENERGY|BIAS \S+|CV \S+) -?(nan|inf)", rr["out"], re.M):
+            _nonfinite_base.add(name)      # already non-finite as it stands (in this engine set-up): not a consequence of the value under test
         out.append((name, text, L.harvest(log)))
     _harvest_cache["h"] = out
     return out
@@ -1173,7 +1176,8 @@ def search(run, r, plain, asan, W, quick, report_death, check_survivors_search, 
             if rr["cls"] != "ok":
                 report_death(label, kw, v, variant, rr, sc, " (configuration %s)" % name)
                 continue
-            check_finite(label, kw.lower(), v, variant, rr, sc, [value_class(t) for t in v.split()] if v.strip() else [])
+            if name not in _nonfinite_base:
+                check_finite(label, kw.lower(), v, variant, rr, sc, [value_class(t) for t in v.split()] if v.strip() else [])
             if impl == "reject" and variant == "plain":
                 ol = objs_lines(rr["out"])
                 if len(ol) >= 2 and not (ol[1][0].startswith(ol[0][0]) and ol[1][1].startswith(ol[0][1])):
